@@ -130,7 +130,16 @@ HELPER_SITE = {'parts_af': S_PART, 'parts_gt': S_PART, 'part_inb': S_PINB, 'proj
 # the whole correction: make_low_pass_func_GATK_multisample
 # --------------------------------------------------------------------------
 def enc_pre(pre):
-    prob_nocall_ND, use_sim_mat, proj_mats, heterr_mats, sim_outputs = pre
+    """The precalculated tables of the correction (an internal 5-tuple).  If the implementation hands back something of another
+    form, that is an observation ('raised'), judged by the trace spec - not a failure of the recorder."""
+    try:
+        prob_nocall_ND, use_sim_mat, proj_mats, heterr_mats, sim_outputs = pre
+        return _enc_pre(prob_nocall_ND, use_sim_mat, proj_mats, heterr_mats, sim_outputs)
+    except Exception as e:
+        return {'raised': 'MalformedPrecalc:' + type(e).__name__}
+
+
+def _enc_pre(prob_nocall_ND, use_sim_mat, proj_mats, heterr_mats, sim_outputs):
     return {'nocall': rats(np.asarray(prob_nocall_ND, dtype=float).ravel()),
             'usesim': [bool(b) for b in np.asarray(use_sim_mat).ravel()],
             'proj': [rats(np.asarray(m, dtype=float)) for m in proj_mats],
@@ -331,6 +340,8 @@ def records(ctx):
         else:
             epre = enc_pre(pre)
             add('precalc', base, epre, S_PRE)
+            if 'raised' in epre:
+                continue
             add('apply', {'s': enc(model), 'nsub': nsub, 'nseq': nseq, 'thr': rat(thr), 'pre': epre}, {'s': enc(out)}, S_APPLY)
     # a real dadi model through the correction (deep coverage and low coverage)
     for j, (kind, nseq, nsub) in enumerate([('deep', [12], [8]), ('lowpass', [10], [6])] if q else
@@ -354,6 +365,8 @@ def records(ctx):
         else:
             epre = enc_pre(pre)
             add('precalc', base, epre, S_PRE)
+            if 'raised' in epre:
+                continue
             add('apply', {'s': enc(model), 'nsub': nsub, 'nseq': nseq, 'thr': '1', 'pre': epre}, {'s': enc(out)}, S_APPLY)
     # deep coverage in the SIMULATED regime (sim_threshold = 0, subsampling nsub < nseq somewhere): the corrected model must be
     # within the sampling error of the subsampled model; again preceded by a low-coverage wrapper with the same settings
@@ -542,6 +555,8 @@ def boundary_records(ctx, add, helper):
             return
         epre = enc_pre(pre)
         add('precalc', base, epre, S_PRE)
+        if 'raised' in epre:
+            return
         add('apply', {'s': enc(model), 'nsub': list(nsub), 'nseq': list(nseq), 'thr': rat(rec_thr), 'pre': epre, 'variant': base['variant']}, {'s': enc(out)}, S_APPLY)
     cases = [
         # tag, nseq, nsub, covs, thr, Fx, nsim, options
